@@ -9,6 +9,11 @@ Far tails (|x - loc| = 20 … 1e6 scales, where exp() under/overflows): cdf stay
 non-negative and bounded by the cdf increment over one scale (mean-value form of "density = derivative of the cdf").
 rnd histories: several draws on one object / two objects, seeded and unseeded mixed, scalar / int / tuple sizes, the stream
 started by rnd(seed=…) or by the caller's np.random.seed: every draw is invcdf of the continued uniform stream; run twice = same.
+Parameter histories on ONE object: constructed from parameters / parameters + sample / empty (GumbelMin), then re-fitted in place
+(GumbelMin.fit with a new or the stored sample, every method) or through the fit classmethods (Weibull / Gumbel, called on the
+instance), public parameter attributes re-assigned (all or one of them, float or int), properties read in between.  After every
+step EVERY reported quantity is evaluated against the density the object has NOW, without reading any parameter: cdf(median) = 1/2,
+the mode maximises pdf over the bulk, mean/std/skew/kurt = quadrature of pdf, pdf = d cdf/dx, invcdf∘cdf = id, rnd = invcdf(uniforms).
 """
 import math
 
@@ -24,7 +29,11 @@ RULE = ("seeded parameters: loc in [-50,50], scale log-uniform [1e-2,1e2], Weibu
         "the support, p in (0,1) plus 0, 1 and out-of-range values; non-trivial = every parameter set (all are non-default); "
         "distinct by (distribution, parameters); far-tail x = loc +- scale*{20,40,200,700,709,710,745,750,1e3,1e4,1e6}; rnd histories of "
         "2-5 draws (size None/int/tuple, seed given or None) on the object and a second object, started by a seeded draw or by "
-        "np.random.seed; corpus/C15 cases first")
+        "np.random.seed; parameter histories on one object: construct (params | params+sample | empty GumbelMin) then 1-4 steps of "
+        "fit (in place / classmethod on the instance; msm, lse, mle, pwm, pwm2; new or stored sample of 60-400 values drawn by "
+        "inverse transform from a seeded distribution of the family), set (re-assign all / one parameter attribute, float or int), "
+        "read (all properties); all coherence clauses after every step whose state has |loc| <= 1e3, scale in [1e-3,1e3], shape in "
+        "[0.5,20]; corpus/C15 cases first")
 TAIL_K = (20.0, 40.0, 200.0, 700.0, 709.0, 710.0, 745.0, 750.0, 1e3, 1e4, 1e6)
 
 
@@ -158,6 +167,183 @@ def history_clauses(d, hist):
     return out
 
 
+# ---- parameter histories on one object -------------------------------------------------------------------------------------
+FIT_METHODS = dict(wb=("msm", "lse", "mle", "pwm", "pwm2"), gu=("msm", "lse", "mle", "pwm"), gm=("msm", "lse", "mle"))
+STATS = ("mean", "std", "skew", "kurt", "median", "mode")
+
+
+def attr_names(kind):
+    """public parameter attributes, in constructor order"""
+    return ("location", "scale") if kind == "gm" else (("loc", "scale", "shape") if kind == "wb" else ("loc", "scale"))
+
+
+def draw_sample(kind, spec):
+    """a sample by inverse transform from a seeded distribution of the same family"""
+    u = np.random.RandomState(spec["seed"]).random_sample(spec["n"])
+    return np.asarray(make(kind, tuple(spec["src"])).invcdf(p=u), dtype=float)
+
+
+def rand_params(rng, kind):
+    loc = rng.choice([0.0, round(rng.uniform(-50, 50), 3)])
+    scale = round(10 ** rng.uniform(-1, 1.5), 4)
+    return [loc, scale] + ([rng.choice([1.0, 2.0, 3.6, round(rng.uniform(0.8, 6), 3)])] if kind == "wb" else [])
+
+
+def gen_param_history(rng, kind):
+    spec = lambda: dict(src=rand_params(rng, kind), n=rng.choice([60, 150, 400]), seed=rng.randint(0, 2 ** 31 - 1))
+    how = rng.choice(["params", "params+data", "params+data"] + (["empty"] if kind == "gm" else []))
+    h = dict(dist=kind, check="param-history", construct=how, params=None if how == "empty" else rand_params(rng, kind),
+             data=spec() if how == "params+data" else None, steps=[])
+    has_data = how == "params+data"
+    for i in range(rng.randint(1, 4)):
+        op = "fit" if (how == "empty" and i == 0) else rng.choice(["fit", "fit", "set", "read"])
+        if op == "fit":
+            stored = has_data and kind == "gm" and rng.random() < 0.5     # GumbelMin.fit() re-uses the stored sample
+            h["steps"].append(["fit", rng.choice(FIT_METHODS[kind]), None if stored else spec()])
+            has_data = True
+        elif op == "set":
+            new = rand_params(rng, kind)
+            if rng.random() < 0.25:
+                new = [float(int(new[0])), float(max(1, int(new[1])))] + [float(max(1, int(v))) for v in new[2:]]
+                new = [int(v) for v in new] if rng.random() < 0.5 else new
+            names = attr_names(kind)
+            which = rng.choice([list(names), list(names), [rng.choice(names)]])
+            h["steps"].append(["set", {a: v for a, v in zip(names, new) if a in which}])
+        else:
+            h["steps"].append(["read"])
+    return h
+
+
+def valid_state(o, kind):
+    """the object's public parameter attributes are valid parameters (finite, scale > 0, shape > 0) inside the domain the float
+    tolerances are meant for: |loc| <= 1e3, scale in [1e-3, 1e3], Weibull shape in [0.5, 20] (a degenerate 3-parameter Weibull fit
+    can return loc ~ -1e8, shape ~ 1e7, where the closed-form moments cancel catastrophically: not judged here)"""
+    try:
+        v = [float(getattr(o, a)) for a in attr_names(kind)]
+    except (TypeError, ValueError, AttributeError):
+        return False
+    return (all(math.isfinite(x) for x in v) and abs(v[0]) <= 1e3 and 1e-3 <= v[1] <= 1e3 and
+            (kind != "wb" or 0.5 <= v[2] <= 20.0))
+
+
+def state_clauses(o, kind):
+    """every reported quantity against the density the object has now; no parameter is read (lengths come from its quantiles).
+    -> list of (oracle, expected, observed)"""
+    out = []
+    try:
+        with np.errstate(all="ignore"):
+            qs = np.array([1e-4, 0.01, 0.05, 0.1, 0.25, 0.5, 0.75, 0.9, 0.95, 0.99, 0.9999])
+            xs = np.asarray(o.invcdf(p=qs), dtype=float)
+            cdf = np.asarray(o.cdf(x=xs), dtype=float)
+            pdf = np.asarray(o.pdf(x=xs), dtype=float)
+            iqr = float(xs[6] - xs[4])
+            if not (np.all(np.isfinite(xs)) and np.all(np.diff(xs) > 0)):
+                return [("invcdf increasing in p", "increasing, finite", xs.tolist())]
+            if np.any(np.diff(cdf) < 0) or np.any(cdf < 0) or np.any(cdf > 1):
+                out.append(("cdf non-decreasing within [0,1]", "monotone in [0,1]", cdf.tolist()))
+            slack = np.nan_to_num(pdf, posinf=1e300) * np.abs(xs) * 2e-14 + 1e-12
+            if not np.all(np.abs(cdf - qs) <= 1e-7 * qs + slack):
+                out.append(("cdf(invcdf(p)) == p", qs.tolist(), cdf.tolist()))
+            # density = derivative of the cdf; the step actually taken (xp - xm) is used as the denominator
+            xb = xs[2:9]
+            xp, xm = xb + 1e-6 * iqr, xb - 1e-6 * iqr
+            num = (np.asarray(o.cdf(x=xp), dtype=float) - np.asarray(o.cdf(x=xm), dtype=float)) / (xp - xm)
+            if not np.allclose(num, pdf[2:9], rtol=2e-5, atol=0):
+                out.append(("pdf is the derivative of the cdf (central difference, rel 2e-5)", num.tolist(), pdf[2:9].tolist()))
+            # rnd = inverse transform of the uniforms of the seed, for the parameters the object has now
+            r = np.asarray(o.rnd(size=5, seed=4711), dtype=float)
+            e = np.asarray(o.invcdf(p=np.random.RandomState(4711).random_sample(5)), dtype=float)
+            if not (r.shape == e.shape and np.allclose(r, e, rtol=1e-14, atol=0)):
+                out.append(("rnd(seed) == invcdf(uniforms of that seed)", e.tolist(), r.tolist()))
+            if kind != "wb":
+                med, mode = o.median, o.mode
+                if med is None or not math.isfinite(float(med)):
+                    out.append(("cdf(median) == 1/2", 0.5, "median = %r" % (med,)))
+                else:
+                    cm = float(o.cdf(x=[float(med)])[0])
+                    if not abs(cm - 0.5) <= 1e-12 + 2e-15 * float(o.pdf(x=[float(med)])[0]) * abs(float(med)):
+                        out.append(("cdf(median) == 1/2", 0.5, cm))
+                if mode is None or not math.isfinite(float(mode)):
+                    out.append(("the reported mode maximises the density", "a finite value", "mode = %r" % (mode,)))
+                else:
+                    mode = float(mode)
+                    grid = np.concatenate([np.asarray(o.invcdf(p=np.linspace(0.005, 0.995, 199)), dtype=float),
+                                           [mode - 1e-3 * iqr, mode + 1e-3 * iqr]])
+                    pg = np.asarray(o.pdf(x=grid), dtype=float)
+                    pm = float(o.pdf(x=[mode])[0])
+                    if not pm >= float(pg.max()) * (1 - 1e-12):
+                        out.append(("the reported mode maximises the density (pdf(mode) >= pdf on 199 quantiles of the bulk and at "
+                                    "mode +- 1e-3 interquartile ranges)", "pdf(mode) >= %r at x = %r" % (float(pg.max()), float(grid[int(pg.argmax())])),
+                                    "mode = %r, pdf(mode) = %r" % (mode, pm)))
+    except Exception as e:
+        out.append(("cdf / pdf / invcdf / rnd / median / mode are defined for valid parameters", "values", "%s: %s" % (type(e).__name__, e)))
+        return out
+    # moments by quadrature of the object's own density
+    if kind == "wb" and float(o.shape) < 0.7:
+        return out        # integrable singularity at loc: quadrature too inaccurate
+    try:
+        with np.errstate(all="ignore"):
+            qm = quad_moments(o, kind, None)
+            rep = [getattr(o, a) for a in ("mean", "std", "skew", "kurt")]
+        for name, a, b, t in zip(("mean", "std", "skew", "kurt"), rep, qm, (1e-6, 1e-6, 1e-5, 1e-4)):
+            if a is None or not math.isfinite(float(a)):
+                out.append(("reported %s is that of the density (quadrature)" % name, b, "%r" % (a,)))
+                continue
+            a = float(a)
+            if name == "kurt" and abs(a - (b - 3.0)) <= t * max(1.0, abs(b)):
+                continue    # excess kurtosis: either convention is "the kurtosis"
+            if abs(a - b) > t * max(1.0, abs(b), abs(float(xs[5])) if name == "mean" else 0.0):
+                out.append(("reported %s is that of the density (quadrature of x^k pdf(x) over the 1e-13 .. 1-1e-13 quantile range)" % name, b, a))
+    except Exception as e:
+        out.append(("the reported moments are defined for valid parameters", "values", "%s: %s" % (type(e).__name__, e)))
+    return out
+
+
+def run_param_history(h):
+    """-> list of (step index (-1 = after construction), step, oracle, expected, observed); [] when every clause holds at every step"""
+    from qats.stats.gumbelmin import GumbelMin
+    kind = h["dist"]
+    res = []
+    try:
+        if h["construct"] == "empty":
+            o = GumbelMin()
+        elif h["construct"] == "params+data":
+            o = type(make(kind, tuple(h["params"])))(*h["params"], data=draw_sample(kind, h["data"]))
+        else:
+            o = make(kind, tuple(h["params"]))
+    except Exception as e:
+        return [(-1, ["construct"], "the distribution object can be constructed", "object", "%s: %s" % (type(e).__name__, e))]
+    objs = [o]                       # Weibull / Gumbel fit returns a new object: the earlier ones must stay coherent too
+    steps = [(-1, ["construct"])] + list(enumerate(h["steps"]))
+    for i, st in steps:
+        o = objs[-1]
+        try:
+            with np.errstate(all="ignore"):
+                if st[0] == "fit":
+                    if st[2] is None:
+                        o.fit(method=st[1])                      # GumbelMin: stored sample
+                    else:
+                        r = o.fit(draw_sample(kind, st[2]), method=st[1])
+                        if r is not None:
+                            objs.append(r)
+                elif st[0] == "set":
+                    for a, v in st[1].items():
+                        setattr(o, a, v)
+                elif st[0] == "read":
+                    _ = [getattr(o, a) for a in STATS if hasattr(type(o), a)]
+        except Exception:
+            break                    # a fit that does not converge / raises is not this property's business: the history ends
+        last = objs[-1]
+        for ob in (objs if i == len(h["steps"]) - 1 else [last]):
+            if not valid_state(ob, kind):
+                continue
+            for orc, exp_, obs in state_clauses(ob, kind):
+                res.append((i, st, orc + ("" if ob is last else " [object from before a later fit]"), exp_, obs))
+        if res:
+            break
+    return res
+
+
 def run(chk):
     chk.extra["rule"] = RULE
     chk.partial += ["Gumbel / GumbelMin mean: proved to be loc +/- gamma*scale for the generated density (gu_density_mean, gm_density_mean) "
@@ -174,6 +360,8 @@ def run(chk):
     cases = [("wb", (0.0, 1.0, 2.0)), ("gm", (1.0, 2.0)), ("gu", (0.0, 1.0))]
     corpus = core.load_corpus("C15")
     for c in corpus:
+        if c.get("check") == "param-history":
+            continue
         key = (c["dist"], tuple(float(v) for v in c["params"]))
         if key not in cases:
             cases.append(key)
@@ -334,10 +522,12 @@ def run(chk):
             if kind == "wb":
                 d2.shape = fresh_par[2]
         ref = make(kind, fresh_par)
-        got = [float(getattr(d2, a)) for a in ("mean", "std", "skew", "kurt")]
-        exp = [float(getattr(ref, a)) for a in ("mean", "std", "skew", "kurt")]
+        names = ("mean", "std", "skew", "kurt") + (() if kind == "wb" else ("median", "mode"))
+        got = [float(getattr(d2, a)) for a in names]
+        exp = [float(getattr(ref, a)) for a in names]
         if not all(close(a, b, 1e-12) for a, b in zip(got, exp)) or not np.allclose(d2.cdf(x=ref.invcdf(p=[0.3, 0.6])), [0.3, 0.6], rtol=1e-9):
-            chk.fail("reported moments are those of the density of the instance's current parameters", dict(inp, reassigned=fresh_par), exp, got)
+            chk.fail("reported moments, median and mode are those of the density of the instance's current parameters (public parameter "
+                     "attributes re-assigned)", dict(inp, reassigned=fresh_par), exp, got)
         # median / mode
         if kind != "wb":
             if not close(float(d.cdf(x=[d.median])[0]), 0.5, 1e-12):
@@ -346,6 +536,20 @@ def run(chk):
             around = d.pdf(x=[m - 1e-3 * par[1], m, m + 1e-3 * par[1]])
             if not (around[1] >= around[0] and around[1] >= around[2]):
                 chk.fail("mode maximises the density", inp, "pdf(mode) >= neighbours", around.tolist())
+    # ---- parameter histories on one object: every reported quantity against the density the object has after each step -----
+    hs = [dict(c) for c in corpus if c.get("check") == "param-history"]
+    nh = 36 if chk.quick else 300
+    hs += [gen_param_history(rng, ("gm", "gu", "wb")[i % 3]) for i in range(nh)]
+    for h in hs:
+        chk.count("param-history")
+        chk.nontriv(("param-history", h["dist"], h["construct"], tuple(st[0] + (":" + st[1] if st[0] == "fit" else "") for st in h["steps"])))
+        chk.dist("param-history:%s:%s" % (h["dist"], h["construct"]))
+        for st in h["steps"]:
+            chk.dist("param-history-step:%s" % st[0])
+        bad = run_param_history(h)
+        for i, st, orc, exp_, obs in bad[:3]:
+            chk.fail("after step %d (%s) of a history on one %s object: %s" % (i, st[0] + (" " + st[1] if st[0] == "fit" else ""),
+                     {"wb": "Weibull", "gu": "Gumbel", "gm": "GumbelMin"}[h["dist"]], orc), h, exp_, obs, step=i)
     # the literal behind the reported Gumbel means against the Euler-Mascheroni constant (see theorem gu_gm_mean_shape)
     from qats.stats import gumbel as _gumbel_mod, gumbelmin as _gumbelmin_mod
     for modname, mod, sign in (("gumbel", _gumbel_mod, 1.0), ("gumbelmin", _gumbelmin_mod, -1.0)):
@@ -392,6 +596,14 @@ def run(chk):
 
 def replay(rp):
     inp = rp["input"]
+    if inp.get("check") == "param-history":
+        res = run_param_history(inp)
+        for i, st, o, e, g in res:
+            print("FAILS after step %d %s: %s" % (i, st, o))
+            print("   expected:", e)
+            print("   observed:", g)
+        print("replay: %d failing clause(s)" % len(res))
+        return 1 if res else 0
     d = make(inp["dist"], tuple(inp["params"]))
     if inp.get("check") in ("tails", "rnd-history"):
         if inp["check"] == "tails":
@@ -400,6 +612,18 @@ def replay(rp):
             res = history_clauses(d, inp)
         for o, e, g in res:
             print("FAILS:", o)
+            print("   expected:", e)
+            print("   observed:", g)
+        print("replay: %d failing clause(s)" % len(res))
+        return 1 if res else 0
+    if "reassigned" in inp:
+        kind, fresh = inp["dist"], tuple(inp["reassigned"])
+        _ = (d.mean, d.std, d.skew, d.kurt)
+        for a, v in zip(attr_names(kind), fresh):
+            setattr(d, a, v)
+        res = state_clauses(d, kind)
+        for o, e, g in res:
+            print("FAILS after re-assigning the parameters to %s: %s" % (list(fresh), o))
             print("   expected:", e)
             print("   observed:", g)
         print("replay: %d failing clause(s)" % len(res))
